@@ -230,7 +230,7 @@ def dominant_trace(ctx, n, k0, dt, phase, use_object):
     ctx.hist('dominant-frequency trace')
     ctx.count_case(('trace', n, k0, dt, phase), True)
     if use_object:
-        asig = eqsig.AccSignal(x, dt)
+        asig = ctx.aged(eqsig.AccSignal, x, dt)
         f = np.asarray(sw.get_max_stockwell_freq(asig))
     else:
         f = np.asarray(sw.get_max_tifq_vals_freq(sw.transform(x), dt))
